@@ -145,7 +145,14 @@ impl ServerState {
   pub fn update(&mut self, updates: Vec<(ModuleReference, String)>) {
     let mut error_set = ErrorSet::new();
     let initial_update_set = updates.iter().map(|(m, _)| *m).collect::<HashSet<_>>();
-    for (mod_ref, source_code) in updates {
+    // When a batch changes the same module more than once, only its last text counts
+    // (the syntax errors of an earlier text must not survive in the shared error set).
+    let last_update_index =
+      updates.iter().enumerate().map(|(i, (m, _))| (*m, i)).collect::<HashMap<_, _>>();
+    for (index, (mod_ref, source_code)) in updates.into_iter().enumerate() {
+      if last_update_index.get(&mod_ref) != Some(&index) {
+        continue;
+      }
       let parsed = samlang_parser::parse_source_module_from_text(
         &source_code,
         mod_ref,
